@@ -141,6 +141,16 @@ class RecomputingDict(MutableMapping[RuleKey, AbstractStrategy]):
     def __contains__(self, key: object) -> bool:
         return self._flatten(cast(RuleKey, key)) in self.rules
 
+    def __eq__(self, other: object) -> bool:
+        """
+        Two recomputing dicts are equal if they hold the same keys. The strategies are
+        not stored; comparing them would recompute every one of them, which labels
+        new classes in the class database and fails for rules between empty classes.
+        """
+        if not isinstance(other, RecomputingDict):
+            return NotImplemented
+        return self.only_equiv == other.only_equiv and self.rules == other.rules
+
 
 class RuleDBForgetStrategy(RuleDBBase):
     def __init__(self) -> None:
